@@ -4,6 +4,7 @@ use crate::ctx::Ctx;
 
 pub mod c01;
 pub mod c02;
+pub mod c12;
 pub mod c15;
 pub mod c16;
 pub mod c17;
@@ -13,6 +14,7 @@ pub fn run(c: &mut Ctx) -> bool {
     match c.prop.as_str() {
         "C01" => c01::run(c),
         "C02" => c02::run(c),
+        "C12" => c12::run(c),
         "C15" => c15::run(c),
         "C16" => c16::run(c),
         "C17" => c17::run(c),
